@@ -41,18 +41,29 @@ RECURSIVE Erase(_)
 Erase(a) ==
   CASE a.op \in {"list", "dict"} -> a
     [] a.op = "lmap" -> Erase(a.in)
+    \* lpmap: the logging map run through map(fn, num_workers=w, buffer_size=bs);
+    \* lfmap / lpmap with a predicate: the function logs its argument and then
+    \* raises FilterException when the predicate holds
+    [] a.op \in {"lfmap", "lpmap"} ->
+         IF a.p.pn = "never" THEN Erase(a.in)
+         ELSE [op |-> "fmap", p |-> a.p, cls |-> "FilterException", in |-> Erase(a.in)]
+    [] a.op = "rshuffle" -> Erase(a.in)      \* (C20 only: order not modelled)
     [] a.op = "lfilter" -> [op |-> "filter", p |-> a.p, lazy |-> a.lazy, in |-> Erase(a.in)]
     [] a.op = "concat" -> [op |-> "concat", in |-> Erase(a.in), in2 |-> a.in2]
     [] OTHER -> [x \in DOMAIN a |-> IF x = "in" THEN Erase(a.in) ELSE a[x]]
 DRef(a) == Ref(Erase(a))
 
 Vals(a) == LET r == DRef(a) IN [j \in 1..Len(r.el) |-> r.el[j].v]
+Els(a) == DRef(a).el
+\* does the stage raise on some example?
+Failing(a) == a.op \in {"lfmap", "lpmap"} /\ a.p.pn # "never"
 
 \* Is the chain free of eager operations (then construction must log nothing)?
 RECURSIVE AllLazy(_)
 AllLazy(a) ==
   CASE a.op \in {"list", "dict"} -> TRUE
     [] a.op = "lfilter" -> a.lazy /\ AllLazy(a.in)
+    [] a.op = "concat" -> AllLazy(a.in)
     [] OTHER -> AllLazy(a.in)
 
 \* Indexable by the reference's lights (lazy filter / unbatch / prefetch are not)
@@ -89,8 +100,25 @@ MayRest(ps, n) == [pos |-> ps, may |-> Range(MaxOf(ps) + 1, n), exh |-> FALSE, m
                    warm |-> FALSE]
 Down0(a, rq) ==
   LET nin == Len(Vals(a.in)) IN
-  CASE a.op \in {"lmap", "items", "copy"} -> rq
-    [] a.op = "catch" -> IdxReq(rq.pos, rq.may)      \* for i in range(len): input[i]
+  CASE a.op \in {"lmap", "lfmap", "items", "copy", "rshuffle"} -> rq
+    [] a.op = "lpmap" ->
+         \* iterating: lazy_parallel_map pulls at most buffer_size + 1 inputs
+         \* beyond what it has delivered; by index (inherited __getitem__): serial
+         IF rq.mode = "index" THEN rq
+         ELSE LET last == MaxOf(rq.pos \o rq.may)
+              IN [rq EXCEPT !.may = rq.may \o Range(last + 1, Min2(nin, last + a.bs + 2)),
+                            !.mex = rq.mex \/ last + a.bs + 2 > nin]
+    [] a.op = "catch" ->
+         \* for i in range(len(input)): input[i], dropping caught failures: the
+         \* j-th output is the j-th surviving input
+         LET ein == Els(a.in)
+             surv == SelectIdx(ein, LAMBDA x : x.ok \/ ~Catches(a.E, x.e), 1)
+             UpTo(j) == IF j = 0 THEN 0 ELSE IF j <= Len(surv) THEN surv[j] ELSE nin
+             u1 == UpTo(Len(rq.pos))
+             u2 == UpTo(Len(rq.pos) + Len(rq.may))
+         IN IF rq.exh THEN IdxReq(Range(1, nin), <<>>)
+            ELSE IF rq.mex THEN IdxReq(Range(1, u1), Range(u1 + 1, nin))
+            ELSE IdxReq(Range(1, u1), Range(u1 + 1, u2))
     [] a.op = "cache" -> IF rq.warm THEN IdxReq(<<>>, <<>>) ELSE IdxReq(rq.pos, rq.may)
     [] a.op = "lfilter" ->
          IF ~a.lazy THEN      \* an eager filter is a selection of the survivors
@@ -166,12 +194,14 @@ RECURSIVE Expect(_, _)
 Expect(a, rq) ==
   IF a.op \in {"list", "dict"} THEN <<>>
   ELSE LET vin == Vals(a.in)
+           ein == Els(a.in)
            here == IF a.op = "concat" THEN DownConcat(a, rq) ELSE Down(a, rq)
-           ArgsAt(ps) == [j \in 1..Len(ps) |-> Atoms(vin[ps[j]])]
-           \* the arguments this stage's own user function sees
-           mine == IF a.op = "lmap" \/ (a.op = "lfilter" /\ a.lazy)
-                   THEN LET dn == Down(a, rq)
-                        IN <<[s |-> a.s, must |-> ArgsAt(dn.pos), may |-> ArgsAt(dn.may)]>>
+           \* the function of this stage is applied to the requested inputs whose
+           \* evaluation did not fail below
+           ArgsAt(ps) == LET qs == SelectIdx(ps, LAMBDA q : ein[q].ok, 1)
+                         IN [j \in 1..Len(qs) |-> Atoms(vin[ps[qs[j]]])]
+           mine == IF a.op \in {"lmap", "lfmap", "lpmap"} \/ (a.op = "lfilter" /\ a.lazy)
+                   THEN <<[s |-> a.s, must |-> ArgsAt(here.pos), may |-> ArgsAt(here.may)]>>
                    ELSE <<>>
        IN Expect(a.in, here) \o mine
 
@@ -196,18 +226,21 @@ Matches(calls, exp) ==
   /\ \A j \in 1..Len(calls) : \E m \in 1..Len(exp) : exp[m].s = calls[j].s
 
 V_C08(a, logs) ==
-  LET n == Len(Vals(a)) IN
+  LET n  == Len(Vals(a))
+      fe == FirstErr(Els(a))                     \* first example whose evaluation raises (0: none)
+      avail == IF fe = 0 THEN n ELSE fe - 1      \* results an iteration delivers before that
+      \* pulling k results; asking for more than there are exhausts the
+      \* pipeline, or runs into the failure
+      IterReq(k) == IF k <= avail THEN Req(Range(1, k), <<>>)
+                    ELSE IF fe = 0 THEN ReqAll(n) ELSE Req(Range(1, fe), <<>>)
+      Raises(k) == fe # 0 /\ k > avail
+  IN
   IF logs.exc # "none" THEN <<"viol", "supported-pipeline-refused">>
-  ELSE IF \E j \in 1..Len(logs.iters) : logs.iters[j].exc # "none"
-       THEN <<"viol", "iteration-of-a-supported-pipeline-raises">>
+  ELSE IF \E j \in 1..Len(logs.iters) : (logs.iters[j].exc # "none") # Raises(logs.iters[j].k)
+       THEN <<"viol", "iteration-raises-or-swallows-unexpectedly">>
   ELSE IF AllLazy(a) /\ logs.build # <<>> THEN <<"viol", "user-function-called-during-construction">>
   ELSE IF \E j \in 1..Len(logs.iters) :
-            LET k == logs.iters[j].k
-                kk == IF k < n THEN k ELSE n
-                \* pulling k results; asking for one more than exist exhausts
-                \* the pipeline: everything may be evaluated then
-                rq == IF k > n THEN ReqAll(n) ELSE Req(Range(1, kk), <<>>)
-            IN ~Matches(logs.iters[j].calls, Expect(a, rq))
+            ~Matches(logs.iters[j].calls, Expect(a, IterReq(logs.iters[j].k)))
        THEN <<"viol", "iteration-prefix-evaluates-other-than-what-is-needed">>
   ELSE IF \E j \in 1..Len(logs.gets) :
             /\ Indexable(a) /\ logs.gets[j].i < n
@@ -226,6 +259,9 @@ Second == [op |-> "list", src |-> <<7, 8>>, pl |-> "i", iw |-> "pickle"]
 
 Ops(s) ==
   <<[op |-> "lmap", s |-> s],
+    [op |-> "lfmap", s |-> s, p |-> [pn |-> "even"]],
+    [op |-> "lpmap", s |-> s, p |-> [pn |-> "never"], w |-> 2, bs |-> 2],
+    [op |-> "lpmap", s |-> s, p |-> [pn |-> "odd"], w |-> 1, bs |-> 2],
     [op |-> "lfilter", s |-> s, p |-> [pn |-> "even"], lazy |-> TRUE],
     [op |-> "lfilter", s |-> s, p |-> [pn |-> "gt1"], lazy |-> TRUE],
     [op |-> "lfilter", s |-> s, p |-> [pn |-> "even"], lazy |-> FALSE],
@@ -247,6 +283,11 @@ Apply(desc, a) == [x \in (DOMAIN desc) \cup {"in"} |-> IF x = "in" THEN a ELSE d
 \* applicability by the reference's lights (keeps the family inside what the
 \* library supports; anything else would be refused at construction)
 Applicable(d, a) ==
+  \* a failing stage is only ever the top of a program or directly below catch()
+  IF Failing(a) THEN d.op = "catch" /\ Indexable(a)
+  ELSE IF d.op \in {"lfmap", "lpmap"} /\ Vals(a) # <<>> /\ \E j \in 1..Len(Vals(a)) : Vals(a)[j].t # "i"
+  THEN FALSE          \* the failing predicates are defined on plain examples
+  ELSE
   CASE d.op = "slice" -> Indexable(a)
     [] d.op = "lfilter" /\ ~d.lazy -> Indexable(a)
     [] d.op \in {"cache", "catch"} -> Indexable(a)
@@ -259,7 +300,7 @@ Next == /\ depth < Depth
         /\ depth' = depth + 1
         /\ \/ \E j \in 1..Len(Ops(depth + 1)) :
                 Applicable(Ops(depth + 1)[j], prog) /\ prog' = Apply(Ops(depth + 1)[j], prog)
-           \/ prog' = [op |-> "concat", s |-> depth + 1, in |-> prog, in2 |-> Second]
+           \/ ~Failing(prog) /\ prog' = [op |-> "concat", s |-> depth + 1, in |-> prog, in2 |-> Second]
 Spec == Init /\ [][Next]_<<prog, depth>>
 Emit == PrintT(<<"VEC", ToJson([prog |-> prog, n |-> Len(Vals(prog)), idx |-> Indexable(prog),
                                 lazy |-> AllLazy(prog)])>>)
